@@ -14,6 +14,8 @@ pub enum Mode {
     Prefix { full: Vec<u8>, table: Vec<(usize, usize)>, header_len: usize },
     /// C16: continue past failure and past the declared size
     Latch { size_in_effect: Option<u64> },
+    /// C07: only totality (no panic on any edge or probe)
+    Total,
 }
 
 #[derive(Default, Debug, Clone)]
@@ -195,6 +197,16 @@ pub fn explore(ctx: &Ctx, x: &[u8], opts: &Opts, mode: &Mode, label: &str) -> Gr
                             break;
                         }
                     }
+                }
+            }
+            Mode::Total => {
+                let (r, _, h) = finish_probe(&hist);
+                gs.finish_probes += 1;
+                if r.v.is_panic() {
+                    viol(&hist, &[SOp::Finish], "finish() never panics".into(), &h, &r);
+                }
+                if failed {
+                    gs.failed_nodes += 1;
                 }
             }
             Mode::Prefix { full, table, header_len } => {
